@@ -14,6 +14,7 @@
 --   witness of the known finding  overshoot_config_has_no_proof (+ a concrete configuration)
 import WinterProofs.Lemmas.C15Complete
 import WinterProofs.Lemmas.C15Overshoot
+import WinterProofs.Lemmas.C15Gen
 import Mathlib.Algebra.Field.ZMod
 
 namespace WinterProofs.C15
@@ -283,5 +284,39 @@ theorem fri_complete_fails_on_overshoot {α : Type} (F : FOps α) (αs evals : L
     (by rw [hlen]; exact overshoot_config_exists.2) st h1
   rw [hs] at h2
   exact absurd h2 (by simp)
+
+/-! ## tie T: the option logic as regenerated from fri/src/options.rs on this run
+
+`Gen.FriOpts.*` is what translate/gen.py makes of `FriOptions::new`, the accessors and `num_fri_layers` on every
+run of the check.  The theorems below equate it with the model functions all the theorems above are about
+(`Opts.new?`, `numFriLayers`), for all arguments: an edit of the Rust functions that changes a value or the
+panic behaviour on any argument breaks one of them. -/
+
+/-- ★ `FriOptions::new` (regenerated) accepts exactly what the model constructor accepts and stores the same
+    three numbers -/
+theorem gen_fri_options_new_eq_model (b f r : Nat) :
+    (Gen.FriOpts.new_ok b f r = true ↔ (Opts.new? b f r).isSome = true) ∧
+    ∀ o, Opts.new? b f r = some o → Gen.FriOpts.new b f r = (o.folding, o.remMaxDeg, o.blowup) :=
+  C15G.gen_new_eq_model b f r
+
+/-- ★ `num_fri_layers` (regenerated, the `while` loop as fuelled recursion) equals the model's `numFriLayers`
+    for every option record, every `usize` domain size and every fuel `≥ 64`; it overflows exactly when
+    `remainder_max_degree + 1` or `(remainder_max_degree + 1)·blowup_factor` does not fit a `usize` -/
+theorem gen_num_fri_layers_eq_model (o : Opts) (d N : Nat) (hd : d < 18446744073709551616) (hN : 64 ≤ N) :
+    Gen.FriOpts.num_fri_layers N o.blowup o.folding o.remMaxDeg d = numFriLayers o d ∧
+    (Gen.FriOpts.num_fri_layers_ok N o.blowup o.folding o.remMaxDeg d = true ↔
+      (o.remMaxDeg + 1 < 18446744073709551616 ∧ (o.remMaxDeg + 1) * o.blowup < 18446744073709551616)) :=
+  C15G.gen_num_fri_layers_eq_model o d N hd hN
+
+/-- hence the layer-count specification holds of the regenerated function -/
+theorem gen_num_fri_layers_spec (o : Opts) (d N : Nat) (hd : d < 18446744073709551616) (hN : 64 ≤ N) :
+    let L := Gen.FriOpts.num_fri_layers N o.blowup o.folding o.remMaxDeg d
+    d / o.folding ^ L ≤ (o.remMaxDeg + 1) * o.blowup ∧ ∀ k, k < L → (o.remMaxDeg + 1) * o.blowup < d / o.folding ^ k := by
+  intro L
+  have : L = numFriLayers o d := (C15G.gen_num_fri_layers_eq_model o d N hd hN).1
+  rw [this]; exact numFriLayers_spec o d
+
+example : Gen.FriOpts.num_fri_layers 64 8 4 31 (2 ^ 20) = 6 ∧ Gen.FriOpts.num_fri_layers_ok 64 8 4 31 (2 ^ 20) = true := by
+  decide +kernel
 
 end WinterProofs.C15
